@@ -112,11 +112,19 @@ class Ctx:
         self.paths = paths
         self._progs = {}
         self._worlds = {}
+        self.inlined = {}
 
     def prog(self, cfg):
         p = self._progs.get(cfg)
         if p is None:
-            p = Program(Facts(self.paths[cfg]))
+            import json as _json
+            from . import inline
+            with open(self.paths[cfg]) as f:
+                j = _json.load(f)
+            # helpers introduced after the pinned tree are looked through (analysis/inline.py)
+            j, rep_ = inline.inline_facts(j)
+            self.inlined[cfg] = rep_
+            p = Program(Facts(j))
             self._progs[cfg] = p
         return p
 
